@@ -270,14 +270,19 @@ def run(ctx):
     nsets, set_diffs = (6 if tier == "quick" else 100), 0
     if not ctx.get("replay") or replay_set is not None:
         srng = vlib.mkrng(seed, prop + "-sets")
-        for m in range(nsets if replay_set is None else 1):
-            fs, _ = gen.gen_fileset(srng, nfiles=srng.choice([2, 3, 3]))
+        directed_sets = p_determinism.corpus_cases() if replay_set is None else []      # one declaration depending on many others
+        for m in range((nsets + len(directed_sets)) if replay_set is None else 1):
+            if m >= nsets and replay_set is None:
+                fs = directed_sets[m - nsets]
+            else:
+                fs, _ = gen.gen_fileset(srng, nfiles=srng.choice([2, 3, 3]))
             if replay_set is not None:
                 fs = replay_set
             root = os.path.join(work, "sets", str(m))
             mainp = gen.write_fileset(fs, root)
-            rd = p_determinism.compile_all(ctx["idlc"], mainp, root, root, os.path.join(root, "o_debug"))
-            rr = p_determinism.compile_all(rel, mainp, root, root, os.path.join(root, "o_release"))
+            idir = os.path.join(root, "inc") if any(f["path"].startswith("inc/") for f in fs["files"]) else root
+            rd = p_determinism.compile_all(ctx["idlc"], mainp, idir, root, os.path.join(root, "o_debug"))
+            rr = p_determinism.compile_all(rel, mainp, idir, root, os.path.join(root, "o_release"))
             for tagb in rd:
                 if rd[tagb][0] != rr[tagb][0] or rd[tagb][1] != rr[tagb][1]:
                     set_diffs += 1
